@@ -475,7 +475,7 @@ class VBroker(object):
         self.servers = []
         self.preferred = []
 
-    def get_servers_for_psi(self, peer_selection_index, for_upload=True):
+    def get_servers_for_psi(self, peer_selection_index, for_upload=False):   # same default as StorageFarmBroker
         def _permuted(server):
             return permute_server_hash(peer_selection_index, server.get_permutation_seed())
         servers = self.servers
